@@ -20,6 +20,13 @@ package resourceexecutor
 // Crash axis = enumeration: for every rewrite the uninterrupted run yields a write sequence of length L; for
 // EVERY k in 0..L the tree as it was after the k-th write is put back on disk and a fresh executor (empty
 // ResourceCache) is run on it with the same target; all oracles apply to that run as well.
+//
+// Cgroup churn: pod and container cgroups may not exist yet when a rewrite names them (the agent builds its request from
+// the pod list, the container runtime creates the directories in its own time) and appear BETWEEN two rewrites with
+// whatever the runtime put into them (a value that is valid under the parent as it is on disk, in general not the agent's
+// target); cgroups may also be removed between rewrites (a removed path never comes back: pod UIDs and container IDs are
+// unique). The statement quantifies over the cgroups that exist: the parent/child rule after every write, and on
+// completion every EXISTING cgroup of the request holds its target.
 // See /verif/DESIGN.md §4 C12.
 
 import (
@@ -249,22 +256,25 @@ type cgCfg struct {
 	NCPU    int        `json:"ncpu"`
 	Parents []int      `json:"parents"` // node 0 = kubepods root (never rewritten), Parents[i] < i
 	Res     []string   `json:"res"`
-	Init    [][]string `json:"init"`     // [resource][node] canonical value on disk at start
-	Force   int        `json:"force"`    // ResourceForceUpdateSeconds
-	MidJump bool       `json:"mid_jump"` // simulated time may pass inside a batch (slow cgroupfs)
-	Crash2  bool       `json:"crash2"`   // also enumerate the crash points of every restarted rewrite (second order)
+	Init    [][]string `json:"init"`             // [resource][node] canonical value on disk at start
+	Force   int        `json:"force"`            // ResourceForceUpdateSeconds
+	MidJump bool       `json:"mid_jump"`         // simulated time may pass inside a batch (slow cgroupfs)
+	Crash2  bool       `json:"crash2"`           // also enumerate the crash points of every restarted rewrite (second order)
+	Absent  []int      `json:"absent,omitempty"` // pod/container cgroups that do not exist at the start (a node below an absent node is absent too)
 }
 
 type cgOp struct {
-	K       string     `json:"k"`      // rewrite
-	Jump    int        `json:"jump"`   // simulated seconds that pass before the call
-	Res     []string   `json:"res"`    // resources rewritten by this call (subset of cfg.Res)
-	Target  [][]string `json:"target"` // [index in Res][node] canonical target (entry 0, the root, is ignored)
+	K       string     `json:"k"`                // rewrite | create (the runtime creates the cgroup of Node) | remove (the cgroup of Node and everything below it goes away)
+	Jump    int        `json:"jump,omitempty"`   // simulated seconds that pass before the call
+	Res     []string   `json:"res,omitempty"`    // resources rewritten by this call (subset of cfg.Res)
+	Target  [][]string `json:"target,omitempty"` // [index in Res][node] canonical target (entry 0, the root, is ignored)
 	Omit    []int      `json:"omit,omitempty"`
 	CSList  bool       `json:"cs_list,omitempty"` // CPU sets are handed over as "0,1,2,3" instead of "0-3"
 	MaxNum  bool       `json:"max_num,omitempty"` // unlimited memory values are handed over as MaxInt64 instead of "max"
-	Shuffle uint64     `json:"shuffle"`
+	Shuffle uint64     `json:"shuffle,omitempty"`
 	Pattern string     `json:"pattern,omitempty"`
+	Node    int        `json:"node,omitempty"` // create / remove
+	Val     []string   `json:"val,omitempty"`  // create: [index in cfg.Res] canonical value the runtime puts into the new cgroup (cut down to the parent's value on disk when it exceeds it)
 }
 
 func cgFaulty(mode string) bool { return strings.HasPrefix(mode, "fault") }
@@ -396,8 +406,40 @@ func cgGenAssign(g *sim.Rng, d *cgResDef, parents []int, ncpu int) []cgVal {
 
 var cgPatterns = []string{"keep", "shrink", "grow", "shift", "unlimit", "mixed"}
 
+// cgDecimal: a limit whose decimal spelling is a prefix of old's, or of which old's is a prefix (200000 -> 20000 -> 2000,
+// 30000 -> 300000): numerically far apart, textually "the same beginning". 0 = no such value is admissible.
+func cgDecimal(g *sim.Rng, d *cgResDef, o, p cgVal) cgVal {
+	if o == cgInf || o == 0 {
+		return 0
+	}
+	ok := func(x int64) bool {
+		if x <= 0 || int64(cgVal(x)) > int64(p) {
+			return false
+		}
+		if d.name == "cfs" {
+			return x >= 1000 // the kernel's minimum quota
+		}
+		return x%4096 == 0 // memory values are page multiples
+	}
+	var cands []int64
+	for _, q := range []int64{10, 100} {
+		if int64(o)%q == 0 && ok(int64(o)/q) {
+			cands = append(cands, int64(o)/q)
+		}
+		if int64(o) < math.MaxInt64/4/q && ok(int64(o)*q) {
+			cands = append(cands, int64(o)*q)
+		}
+	}
+	if len(cands) == 0 {
+		return 0
+	}
+	return cgVal(cands[g.Intn(len(cands))])
+}
+
 // cgDerive: a hierarchy-valid target derived from old (itself valid) by a dominant pattern with per-node deviations.
-func cgDerive(g *sim.Rng, d *cgResDef, parents []int, old []cgVal, pattern string) []cgVal {
+// sticky (may be nil): nodes whose target mostly stays what it was (the agent's wish for a cgroup that does not exist yet
+// or has just been created comes from the pod spec and does not move because the directory appeared).
+func cgDerive(g *sim.Rng, d *cgResDef, parents []int, old []cgVal, pattern string, sticky []bool) []cgVal {
 	t := make([]cgVal, len(old))
 	t[0] = old[0]
 	// half of the CPU-set rewrites keep every cgroup's old and new set nested (one contains the other) wherever possible
@@ -407,6 +449,9 @@ func cgDerive(g *sim.Rng, d *cgResDef, parents []int, old []cgVal, pattern strin
 		m := pattern
 		if m == "mixed" || g.Bool(0.25) {
 			m = cgPatterns[g.Intn(5)]
+		}
+		if sticky != nil && sticky[i] && g.Bool(0.7) {
+			m = "keep"
 		}
 		o := old[i]
 		if d.isSet {
@@ -466,6 +511,11 @@ func cgDerive(g *sim.Rng, d *cgResDef, parents []int, old []cgVal, pattern strin
 			case "unlimit":
 				t[i] = p
 			}
+			if m != "keep" && g.Bool(0.08) {
+				if x := cgDecimal(g, d, o, p); x != 0 {
+					t[i] = x
+				}
+			}
 		}
 	}
 	return t
@@ -488,6 +538,29 @@ func (cgEngine) Generate(p *sim.Plan, g *sim.Rng) {
 	cfg := cgCfg{V2: g.Bool(0.5), NCPU: g.PickInt(4, 8, 8, 16)}
 	cfg.Mode = []string{"crash", "crash", "crash", "crash-kernel", "crash-kernel", "fault-strict", "fault-lenient"}[g.Intn(7)]
 	cfg.Parents = cgGenTree(g, maxNodes)
+	lv := cgLevels(cfg.Parents)
+	n := len(cfg.Parents)
+	// cgroup churn (one run in three when the tree has pods): some pod / container cgroups do not exist at the start
+	present := make([]bool, n)
+	gone := make([]bool, n)
+	for i := range present {
+		present[i] = true
+	}
+	churn := false
+	for i := range lv {
+		if lv[i] >= 2 {
+			churn = true
+		}
+	}
+	churn = churn && g.Bool(0.35)
+	if churn {
+		for i := 1; i < n; i++ {
+			if lv[i] >= 2 && (!present[cfg.Parents[i]] || g.Bool([]float64{0, 0, 0.3, 0.45}[lv[i]])) {
+				present[i] = false
+				cfg.Absent = append(cfg.Absent, i)
+			}
+		}
+	}
 	cfg.Force = g.PickInt(60, 60, 60, 1, 10, 300)
 	cfg.MidJump = g.Bool(0.15)
 	cfg.Crash2 = g.Bool(0.1) || (thorough && g.Bool(0.4))
@@ -501,12 +574,14 @@ func (cgEngine) Generate(p *sim.Plan, g *sim.Rng) {
 			}
 		}
 	}
-	cur := map[string][]cgVal{}
+	cur := map[string][]cgVal{}  // the agent's latest wish per cgroup (= what is on disk once a rewrite has completed)
+	disk := map[string][]cgVal{} // the generator's idea of what the files hold (differs from cur for freshly created cgroups)
 	for _, x := range perm[:nres] {
 		d := &cgResDefs[x]
 		cfg.Res = append(cfg.Res, d.name)
 		a := cgGenAssign(g, d, cfg.Parents, cfg.NCPU)
 		cur[d.name] = a
+		disk[d.name] = append([]cgVal(nil), a...)
 		cfg.Init = append(cfg.Init, cgStrings(d, a))
 	}
 	if cgFaulty(cfg.Mode) {
@@ -525,12 +600,77 @@ func (cgEngine) Generate(p *sim.Plan, g *sim.Rng) {
 	if thorough {
 		nops = g.Range(1, 5)
 	}
+	if churn {
+		nops = g.PickInt(2, 2, 3, 3)
+		if thorough {
+			nops = g.Range(2, 5)
+		}
+	}
 	var ops []cgOp
+	fresh := make([]bool, n) // created since the last rewrite
 	for k := 0; k < nops; k++ {
+		if churn && k > 0 {
+			// between two rewrites the runtime creates cgroups (parents first) and, rarely, removes some
+			for i := 1; i < n; i++ {
+				if present[i] || gone[i] || !present[cfg.Parents[i]] || !g.Bool(0.55) {
+					continue
+				}
+				cop := cgOp{K: "create", Node: i}
+				for _, name := range cfg.Res {
+					d := cgDef(name)
+					pv := disk[name][cfg.Parents[i]]
+					var v cgVal
+					switch g.Intn(10) {
+					case 0, 1, 2: // what the parent holds (runc copies the parent's cpuset; no limit of its own)
+						v = pv
+					case 3, 4, 5, 6: // whatever the container spec says, valid under the parent
+						if d.isSet {
+							v = cgSubset(g, pv)
+						} else {
+							v = cgScalarLE(g, d, pv)
+						}
+					case 7: // already what the agent wants
+						v = cur[name][i]
+						if !cgWithin(d.isSet, v, pv) {
+							v = pv
+						}
+					default: // the kernel's default for a new cgroup where the rule admits it
+						v = pv
+						if d.name == "mmin" || d.name == "mlow" {
+							v = 0
+						}
+					}
+					disk[name][i] = v
+					cop.Val = append(cop.Val, cgPlanString(d.isSet, v))
+				}
+				present[i], fresh[i] = true, true
+				ops = append(ops, cop)
+			}
+			if g.Bool(0.12) {
+				var cands []int
+				for i := 1; i < n; i++ {
+					if present[i] && lv[i] >= 2 {
+						cands = append(cands, i)
+					}
+				}
+				if len(cands) > 0 {
+					x := cands[g.Intn(len(cands))]
+					ops = append(ops, cgOp{K: "remove", Node: x})
+					for i := x; i < n; i++ {
+						if i == x || (cfg.Parents[i] >= x && gone[cfg.Parents[i]]) {
+							present[i], gone[i] = false, true
+						}
+					}
+				}
+			}
+		}
 		op := cgOp{K: "rewrite", Shuffle: g.U64(), CSList: g.Bool(0.4), MaxNum: g.Bool(0.4)}
 		if k > 0 || g.Bool(0.2) {
 			f := cfg.Force
 			op.Jump = g.PickInt(0, 0, 1, f-1, f, f+1, f+30, 119, 120, 121, 125, 300, 1000)
+			if churn && g.Bool(0.5) { // the next reconcile round comes soon after
+				op.Jump = g.PickInt(0, 0, 1, 5, f-1)
+			}
 			if op.Jump < 0 {
 				op.Jump = 0
 			}
@@ -555,16 +695,35 @@ func (cgEngine) Generate(p *sim.Plan, g *sim.Rng) {
 			if k > 0 && g.Bool(0.15) {
 				pat = "keep" // the same request again (a reconcile loop repeats itself)
 			}
-			t := cgDerive(g, d, cfg.Parents, cur[name], pat)
+			var sticky []bool
+			if churn {
+				sticky = make([]bool, n)
+				for i := range sticky {
+					sticky[i] = !present[i] || fresh[i]
+				}
+			}
+			t := cgDerive(g, d, cfg.Parents, cur[name], pat, sticky)
 			for i := range t {
-				if t[i] != cur[name][i] {
+				if t[i] != cur[name][i] || (present[i] && t[i] != disk[name][i]) {
 					unchanged[i] = false
+				}
+				if present[i] {
+					disk[name][i] = t[i]
 				}
 			}
 			cur[name] = t
 			op.Target = append(op.Target, cgStrings(d, t))
 		}
-		// nodes the caller does not mention at all (only ever honoured for nodes that are already at their target)
+		for i := range fresh {
+			fresh[i] = false
+		}
+		// nodes the caller does not mention at all (only ever honoured for nodes that are already at their target or do not exist)
+		for i := 1; i < n; i++ {
+			if (gone[i] && g.Bool(0.5)) || (!present[i] && !gone[i] && g.Bool(0.25)) {
+				unchanged[i] = false
+				op.Omit = append(op.Omit, i) // the agent's pod list has caught up with the removal / does not know the container yet
+			}
+		}
 		switch g.Intn(5) {
 		case 0:
 			for i := 1; i < len(unchanged); i++ {
@@ -628,7 +787,19 @@ type cgH struct {
 	stops   []chan struct{}
 	pending *cgDeferred
 	nfiles  int
+	present []bool // node -> its cgroup directory exists
+	gone    []bool // node -> removed (a removed path never comes back)
+	// wished: file -> the target of the latest rewrite on the long-lived agent that named the file while its cgroup did not
+	// exist, and when (evidence only: how often the "created inside the force-update window, target kept" history occurs)
+	wished map[int]cgWish
 }
+
+type cgWish struct {
+	v  cgVal
+	at time.Time
+}
+
+func (h *cgH) has(fi int) bool { return h.present[h.nodeOf(fi)] }
 
 type cgDeferred struct{ oracle, detail, msg string }
 
@@ -659,7 +830,7 @@ func (h *cgH) putFile(fi int, v cgVal) {
 // restore puts a recorded tree back on disk.
 func (h *cgH) restore(snap []cgVal) {
 	for fi, v := range snap {
-		if h.val[fi] != v {
+		if h.has(fi) && h.val[fi] != v {
 			h.putFile(fi, v)
 		}
 	}
@@ -669,6 +840,9 @@ func (h *cgH) restore(snap []cgVal) {
 func (h *cgH) scan() []int {
 	var out []int
 	for fi, p := range h.path {
+		if !h.has(fi) {
+			continue // no directory, nothing that could be written
+		}
 		st, err := os.Lstat(p)
 		if err != nil {
 			h.r.HarnessFail("stat %s: %v", p, err)
@@ -699,6 +873,9 @@ func (h *cgH) conflict(fi int, v cgVal) (class, msg string) {
 		}
 	}
 	for _, c := range h.kids[n] {
+		if !h.present[c] {
+			continue
+		}
 		cv := h.val[h.fi(c, ri)]
 		if !cgWithin(d.isSet, cv, v) {
 			return "parent-below-child", fmt.Sprintf("%s of node %d becomes %s, its child node %d still holds %s", d.name, n, h.show(fi, v), c, h.show(fi, cv))
@@ -709,6 +886,9 @@ func (h *cgH) conflict(fi int, v cgVal) (class, msg string) {
 
 func (h *cgH) treeValid() string {
 	for fi := range h.val {
+		if !h.has(fi) {
+			continue
+		}
 		if c, msg := h.conflict(fi, h.val[fi]); c != "" {
 			return msg
 		}
@@ -789,6 +969,15 @@ func (h *cgH) call(w *cgW, pass string, do func() (ResourceUpdater, error)) (Res
 				r.Fail("stray-write", h.defOf(o).name, "%s: the %s call for %s wrote %s", s.name, pass, h.fname(w.fi), h.fname(o))
 			}
 		}
+	}
+	if !h.has(w.fi) {
+		// the cgroup does not exist (yet / any more): there is no file the call could have written
+		if _, serr := os.Lstat(h.path[w.fi]); serr == nil {
+			r.Fail("stray-write", h.defOf(w.fi).name+"/absent-cgroup", "%s: the %s call for %s created the file although the cgroup does not exist", s.name, pass, h.fname(w.fi))
+		}
+		r.Probe("call:" + pass + ":absent-cgroup")
+		r.Event("%s call %s %s absent err=%v", s.name, h.fname(w.fi), pass, err != nil)
+		return m, err
 	}
 	if !h.touched(w.fi) {
 		r.Probe("call:" + pass + ":no-write")
@@ -911,6 +1100,9 @@ func (h *cgH) classifyFailedWrite(fi int, intended cgVal, pass string) {
 	dep := false
 	// descendants (direct children are enough: rules are per edge) whose target or merged value needs the intended value
 	for _, c := range h.kids[n] {
+		if !h.present[c] {
+			continue
+		}
 		cf := h.fi(c, ri)
 		if tv, ok := h.sub.target[cf]; ok {
 			need := tv
@@ -933,7 +1125,7 @@ func (h *cgH) classifyFailedWrite(fi int, intended cgVal, pass string) {
 	if pass == "merge" {
 		if tv, ok := h.sub.target[fi]; ok {
 			for _, c := range h.kids[n] {
-				if !cgWithin(d.isSet, h.val[h.fi(c, ri)], tv) {
+				if h.present[c] && !cgWithin(d.isSet, h.val[h.fi(c, ri)], tv) {
 					dep = true
 				}
 			}
@@ -1039,27 +1231,38 @@ func (h *cgH) run(e *ResourceUpdateExecutorImpl, q *cgReq, s *cgSub) {
 		s.snaps = [][]cgVal{s.start}
 	}
 	h.sub = s
-	// history classes of recorded findings (conditions on the input of this execution, not on what goes wrong)
-	for fi, tv := range addressed {
-		d := h.defOf(fi)
-		if d.isSet && s.start[fi]&^tv != 0 && tv&^s.start[fi] != 0 {
-			r.Tag("cpuset-neither-subset")
-		}
-		if d.name == "cfs" && h.cfg.V2 && s.start[fi] == tv {
-			r.Tag("cfs-v2-unchanged")
-		}
-		if d.name == "cfs" && h.cfg.V2 && tv == cgInf && s.start[fi] != cgInf {
-			r.Tag("cfs-v2-to-unlimited")
-		}
-	}
+	// History classes of the three findings that have been repaired in /repo (known_findings.jsonl, status fixed): counted
+	// as evidence only. They are no longer history TAGS: a fixed finding needs no signature of its own, and a violation on
+	// such a history is reported under its plain signature.
 	if s.keepSnap {
+		hist := map[string]bool{}
+		for fi, tv := range addressed {
+			if !h.has(fi) {
+				continue
+			}
+			d := h.defOf(fi)
+			if d.isSet && s.start[fi]&^tv != 0 && tv&^s.start[fi] != 0 {
+				hist["hist:cpuset-neither-subset"] = true
+			}
+			if d.name == "cfs" && h.cfg.V2 && s.start[fi] == tv {
+				hist["hist:cfs-v2-unchanged"] = true
+			}
+			if d.name == "cfs" && h.cfg.V2 && tv == cgInf && s.start[fi] != cgInf {
+				hist["hist:cfs-v2-to-unlimited"] = true
+			}
+		}
+		for _, k := range []string{"hist:cpuset-neither-subset", "hist:cfs-v2-unchanged", "hist:cfs-v2-to-unlimited"} {
+			if hist[k] {
+				r.Probe(k)
+			}
+		}
 		for _, ri := range q.ris {
 			if !h.defs[ri].isSet {
 				continue
 			}
 			cls := "op:cpuset:all-nested"
 			for fi, tv := range addressed {
-				if fi%len(h.defs) == ri && s.start[fi]&^tv != 0 && tv&^s.start[fi] != 0 {
+				if h.has(fi) && fi%len(h.defs) == ri && s.start[fi]&^tv != 0 && tv&^s.start[fi] != 0 {
 					cls = "op:cpuset:has-neither-subset"
 				}
 			}
@@ -1092,7 +1295,7 @@ func (h *cgH) run(e *ResourceUpdateExecutorImpl, q *cgReq, s *cgSub) {
 	r.Event("%s end writes=%d", s.name, len(s.writes))
 }
 
-// checkReached: on completion every file of the request holds its target.
+// checkReached: on completion every file of the request whose cgroup exists holds its target.
 func (h *cgH) checkReached(s *cgSub, phase string) {
 	h.r.OracleEval()
 	var fis []int
@@ -1102,7 +1305,7 @@ func (h *cgH) checkReached(s *cgSub, phase string) {
 	sort.Ints(fis)
 	for _, fi := range fis {
 		tv := s.target[fi]
-		if h.val[fi] == tv {
+		if !h.has(fi) || h.val[fi] == tv {
 			continue
 		}
 		d := h.defOf(fi)
@@ -1217,6 +1420,22 @@ func (cgEngine) Execute(r *sim.Run) {
 	nf := len(cfg.Parents) * len(h.defs)
 	h.path = make([]string, nf)
 	h.val = make([]cgVal, nf)
+	h.present = make([]bool, len(cfg.Parents))
+	h.gone = make([]bool, len(cfg.Parents))
+	h.wished = map[int]cgWish{}
+	for n := range h.present {
+		h.present[n] = true
+	}
+	for _, a := range cfg.Absent {
+		if a > 0 && a < len(cfg.Parents) && h.levels[a] >= 2 { // the kubepods and QoS cgroups always exist
+			h.present[a] = false
+		}
+	}
+	for n := 1; n < len(cfg.Parents); n++ {
+		if !h.present[cfg.Parents[n]] {
+			h.present[n] = false
+		}
+	}
 	for n := range cfg.Parents {
 		for ri, d := range h.defs {
 			fi := h.fi(n, ri)
@@ -1227,6 +1446,10 @@ func (cgEngine) Execute(r *sim.Run) {
 			v, ok := cgParsePlan(d.isSet, cfg.Init[ri][n])
 			if !ok {
 				r.HarnessFail("bad init value %q", cfg.Init[ri][n])
+			}
+			if !h.present[n] {
+				r.Probe("node:absent-at-start")
+				continue
 			}
 			if err := os.MkdirAll(filepath.Dir(h.path[fi]), 0o755); err != nil {
 				r.HarnessFail("mkdir: %v", err)
@@ -1247,11 +1470,20 @@ func (cgEngine) Execute(r *sim.Run) {
 		}
 	}
 	r.Probe(fmt.Sprintf("cfg:depth=%d", depth))
+	r.Probe("cfg:churn=" + strconv.FormatBool(len(cfg.Absent) > 0))
 	r.Sample("v2=%v mode=%s nodes=%d depth=%d res=%v force=%ds faults=%v", cfg.V2, cfg.Mode, len(cfg.Parents), depth, cfg.Res, cfg.Force, r.Plan.Faults)
 
 	exec := h.newExecutor() // the long-lived agent
 	for oi := range ops {
 		op := &ops[oi]
+		switch op.K {
+		case "create":
+			h.createOp(oi, op)
+			continue
+		case "remove":
+			h.removeOp(oi, op)
+			continue
+		}
 		if op.K != "rewrite" {
 			r.OpSkipped()
 			continue
@@ -1279,6 +1511,15 @@ func (cgEngine) Execute(r *sim.Run) {
 		}
 		r.Probe("pattern:" + op.Pattern)
 		h.describe(oi, op, q)
+		for fi, tv := range q.target {
+			switch n := h.nodeOf(fi); {
+			case q.omit[n]:
+			case !h.present[n]:
+				h.wished[fi] = cgWish{tv, time.Now()}
+			default:
+				delete(h.wished, fi)
+			}
+		}
 		if cgFaulty(cfg.Mode) {
 			exec = h.faultedOp(exec, oi, q)
 		} else {
@@ -1290,6 +1531,83 @@ func (cgEngine) Execute(r *sim.Run) {
 	if h.pending != nil {
 		r.Fail(h.pending.oracle, h.pending.detail, "%s", h.pending.msg)
 	}
+}
+
+// createOp: the container runtime creates the cgroup of op.Node between two rewrites. Applicable when the cgroup does not
+// exist, never existed before (paths are unique) and its parent exists. The files hold what the plan says, cut down to
+// what the parent holds on disk at this moment (a new cgroup never starts outside its parent).
+func (h *cgH) createOp(oi int, op *cgOp) {
+	r := h.r
+	n := op.Node
+	if n <= 0 || n >= len(h.cfg.Parents) || h.levels[n] < 2 || h.present[n] || h.gone[n] || !h.present[h.cfg.Parents[n]] || len(op.Val) != len(h.defs) {
+		r.OpSkipped()
+		return
+	}
+	vals := make([]cgVal, len(h.defs))
+	for ri, d := range h.defs {
+		v, ok := cgParsePlan(d.isSet, op.Val[ri])
+		if !ok {
+			r.OpSkipped()
+			return
+		}
+		pv := h.val[h.fi(h.cfg.Parents[n], ri)]
+		if d.isSet {
+			if v &= pv; v == 0 {
+				v = pv
+			}
+		} else if int64(v) > int64(pv) {
+			v = pv
+		}
+		vals[ri] = v
+	}
+	h.present[n] = true
+	var sb strings.Builder
+	for ri := range h.defs {
+		fi := h.fi(n, ri)
+		if err := os.MkdirAll(filepath.Dir(h.path[fi]), 0o755); err != nil {
+			r.HarnessFail("mkdir: %v", err)
+		}
+		h.val[fi] = vals[ri] + 1 // force putFile
+		h.putFile(fi, vals[ri])
+		fmt.Fprintf(&sb, " %s=%s", h.defs[ri].name, h.show(fi, vals[ri]))
+		if w, ok := h.wished[fi]; ok && w.v != vals[ri] {
+			r.Probe("create:differs-from-agents-wish")
+		}
+	}
+	if msg := h.treeValid(); msg != "" {
+		r.HarnessFail("cgroup creation produced an invalid tree: %s", msg)
+	}
+	r.OpDone()
+	r.Probe("op:create")
+	r.Event("create n%d%s", n, sb.String())
+	r.Sample("op%d create n%d(p%d)%s", oi, n, h.cfg.Parents[n], sb.String())
+}
+
+// removeOp: the cgroup of op.Node and everything below it goes away between two rewrites (pod deleted, container exited).
+func (h *cgH) removeOp(oi int, op *cgOp) {
+	r := h.r
+	n := op.Node
+	if n <= 0 || n >= len(h.cfg.Parents) || h.levels[n] < 2 || !h.present[n] {
+		r.OpSkipped()
+		return
+	}
+	for ri := range h.defs {
+		if err := os.RemoveAll(filepath.Dir(h.path[h.fi(n, ri)])); err != nil {
+			r.HarnessFail("rmdir: %v", err)
+		}
+	}
+	var mark func(x int)
+	mark = func(x int) {
+		h.present[x], h.gone[x] = false, true
+		for _, c := range h.kids[x] {
+			mark(c)
+		}
+	}
+	mark(n)
+	r.OpDone()
+	r.Probe("op:remove")
+	r.Event("remove n%d", n)
+	r.Sample("op%d remove n%d", oi, n)
 }
 
 // request validates an op against the tree as it is (ops must stay meaningful when the shrinker removes earlier ones).
@@ -1333,6 +1651,11 @@ func (h *cgH) request(op *cgOp) *cgReq {
 		if n <= 0 || n >= len(h.cfg.Parents) {
 			continue
 		}
+		if !h.present[n] {
+			q.omit[n] = true // the caller's pod list does not (any longer / yet) contain the cgroup
+			h.r.Probe("req:absent-node-omitted")
+			continue
+		}
 		same := true
 		for _, ri := range q.ris {
 			if h.val[h.fi(n, ri)] != q.target[h.fi(n, ri)] {
@@ -1355,7 +1678,32 @@ func (h *cgH) describe(oi int, op *cgOp, q *cgReq) {
 		for n := 1; n < len(h.cfg.Parents); n++ {
 			fi := h.fi(n, ri)
 			o, t := h.val[fi], q.target[fi]
+			if !h.present[n] {
+				fmt.Fprintf(&sb, " n%d(p%d):absent->%s", n, h.cfg.Parents[n], h.show(fi, t))
+				if !q.omit[n] {
+					r.Probe("node:absent-addressed")
+				}
+				continue
+			}
 			fmt.Fprintf(&sb, " n%d(p%d):%s->%s", n, h.cfg.Parents[n], h.show(fi, o), h.show(fi, t))
+			if w, ok := h.wished[fi]; ok && !q.omit[n] {
+				// the cgroup was named by an earlier rewrite of this agent while it did not exist and has been created since
+				age := time.Since(w.at)
+				switch {
+				case w.v == t && o != t && age <= time.Duration(h.cfg.Force)*time.Second:
+					r.Probe("churn:created-off-target:wish-kept:inside-force-window")
+				case w.v == t && o != t:
+					r.Probe("churn:created-off-target:wish-kept:after-force-window")
+				case o != t:
+					r.Probe("churn:created-off-target:wish-changed")
+				default:
+					r.Probe("churn:created-at-target")
+				}
+			}
+			if !d.isSet && o != t && o != cgInf && t != cgInf && (strings.HasPrefix(h.show(fi, o), h.show(fi, t)) || strings.HasPrefix(h.show(fi, t), h.show(fi, o))) {
+				// numerically different limits, one's decimal spelling the beginning of the other's (200000 -> 20000)
+				r.Probe("node:decimal-prefix:" + h.unchangedDetail(d))
+			}
 			switch {
 			case o == t:
 				r.Probe("node:unchanged")
@@ -1468,7 +1816,7 @@ func (h *cgH) faultedOp(exec *ResourceUpdateExecutorImpl, oi int, q *cgReq) *Res
 		h.run(exec, q, again)
 		reached := true
 		for fi, tv := range again.target {
-			if h.val[fi] != tv {
+			if h.has(fi) && h.val[fi] != tv {
 				reached = false
 			}
 		}
